@@ -14,7 +14,6 @@ Definition rerr_name (e : rerr) : bytes :=
   match e with
   | Tag t => bs "Tag." ++ terr_name t
   | SomeLowercase => bs "SomeLowercase"
-  | StandaloneAt => bs "StandaloneAt"
   end.
 
 Definition show {E} (en : E -> bytes) (o : outcome bytes E) : bytes :=
